@@ -23,6 +23,8 @@ func stateCommentStarted(s *Scanner, c byte) *jerr.JApiError {
 		s.step = stateCommentDouble
 		return nil
 	default:
+		// The rest of the line is comment text, whatever it contains.
+		s.step = stateSingleComment
 		return stateSingleComment(s, c)
 	}
 }
@@ -33,6 +35,7 @@ func stateCommentDouble(s *Scanner, c byte) *jerr.JApiError {
 		s.step = stateCommentBlock
 		return nil
 	default:
+		s.step = stateSingleComment
 		return stateSingleComment(s, c)
 	}
 }
